@@ -63,11 +63,13 @@ def delivered_value(repo: Repo, rep, P: str, mc):
     class Undecided(Exception):
         pass
     results = []          # (reversed?, smin, smax, dmin, dmax, delivered − CONV, type text)
+    all_vmax: List[list] = []
     for path in paths:
         alias: Dict[str, ast.expr] = {}
         env: Dict[str, alg.Poly] = {}
         flags: Dict[str, Tuple[alg.Poly, str]] = {}
         conv_args: List[List[alg.Poly]] = []
+        vmax_seen: List[list] = all_vmax
         reversed_fact: Optional[bool] = None
         infeasible = False
 
@@ -92,8 +94,47 @@ def delivered_value(repo: Repo, rep, P: str, mc):
                     except alg.NotAlgebraic:
                         got.append(alg.Poly.sym(f"opaque<{canon(a)}>"))
                 conv_args.append(got)
+                # the scaling divisor: None (compact ranges) or the target's span, for every range kind
+                vm = e.args[6] if len(e.args) > 6 else next((k.value for k in e.keywords if k.arg == "vmax"), None)
+                if vm is not None:
+                    vmax_seen.append(vmax_cases(vm))
                 return alg.Poly.sym("CONV")
             return None
+
+        def vmax_cases(x: ast.expr, depth: int = 0):
+            """[('none' | 'poly' | '?', value, text)] for every case of the divisor expression."""
+            while isinstance(x, ast.Name) and x.id in alias and depth < 6:
+                x = alias[x.id]
+                depth += 1
+            if isinstance(x, ast.IfExp):
+                return vmax_cases(x.body, depth + 1) + vmax_cases(x.orelse, depth + 1)
+            if isinstance(x, ast.Constant) and x.value is None:
+                return [("none", None, "None")]
+            if isinstance(x, ast.Call) and isinstance(x.func, ast.Attribute) and len(x.args) == 1 and "value_type" in canon(x.func.value):
+                rng = repo.cls("Range", module="rv.controller")
+                m = rng.methods.get(x.func.attr)
+                body = inline.as_expression(inline.normalize(repo, rng, m)) if m is not None else None
+                mp = [a.arg for a in m.args.args if a.arg != "self"] if m is not None else []
+                if body is not None and mp:
+                    sub = inline._Rename({"self": x.func.value, mp[0]: x.args[0]}).visit(body)
+                    out = []
+
+                    def spread(y, cond):
+                        if isinstance(y, ast.IfExp):
+                            spread(y.body, cond + [norm(y.test)])
+                            spread(y.orelse, cond + ["not (" + norm(y.test) + ")"])
+                        else:
+                            try:
+                                out.append(("poly", alg.to_poly(y, leaf), f"{norm(x)} when {' and '.join(cond) or 'always'}"))
+                            except alg.NotAlgebraic:
+                                out.append(("?", None, norm(y)))
+                    spread(sub, [])
+                    return out
+                return [("?", None, norm(x))]
+            try:
+                return [("poly", alg.to_poly(x, leaf), norm(x))]
+            except alg.NotAlgebraic:
+                return [("?", None, norm(x))]
 
         def compare(t: ast.expr):
             """(left − right, op name) for a two-sided ordering test, None otherwise."""
@@ -203,6 +244,29 @@ def delivered_value(repo: Repo, rep, P: str, mc):
         if not infeasible:
             results.append((reversed_fact, conv_args[-1] if conv_args else None, delivered))
     where = f"{rel}:{dnode.lineno}"
+    # --- the scaling divisor handed to convert_value
+    vm_bad, vm_unknown, vm_ok = None, None, False
+    for cases in all_vmax:
+        for kind, val, text in cases:
+            if kind == "none":
+                continue
+            if kind == "?":
+                vm_unknown = text
+                continue
+            syms = [x for x in val.symbols() if x.startswith("max<")]
+            Ts = {x[4:-1] for x in syms}
+            if len(Ts) == 1 and val == alg.Poly.sym(f"max<{next(iter(Ts))}>") - alg.Poly.sym(f"min<{next(iter(Ts))}>"):
+                vm_ok = True
+            else:
+                vm_bad = (text, val)
+    if vm_bad is not None:
+        rep.violation(f"{P}.R4", con, f"vmax = {vm_bad[0]}"[:160],
+                      f"the scaling divisor must be the target's span (vt.max − vt.min); here it is {vm_bad[1]}: for targets whose minimum is not "
+                      "covered by that case (e.g. a positive minimum) the delivered value leaves the declared range", where)
+    elif vm_unknown is not None:
+        rep.inconclusive(f"{P}.R4", con, f"vmax = {vm_unknown}"[:160], "scaling divisor not recognised", where)
+    elif vm_ok:
+        rep.ok(f"{P}.R4", con, "vmax = vt.max - vt.min (None for compact ranges)", "scaling divisor is the target's span for every range kind")
     bad_final, bad_window, bad_swap, unknown = [], [], [], []
     seen_rev = {True: False, False: False}
     for rev, args, delivered in results:
